@@ -506,8 +506,15 @@ func EqVariants(r *rand.Rand, defs []SDef) []SDef {
 				x.K = KSend
 			case x.K == KPlus:
 				x.K = KWith
-			case (x.K == KWith || x.K == KPlus) && len(x.Br) > 1 && r.Intn(2) == 0:
+			case (x.K == KWith || x.K == KPlus) && len(x.Br) > 1 && r.Intn(3) == 0:
 				x.Br[r.Intn(len(x.Br))].L = "zz" // same number of branches, one label differs
+			case (x.K == KWith || x.K == KPlus) && len(x.Br) > 1 && r.Intn(2) == 0:
+				// one branch fewer: the variant's labels are a strict subset of the original's
+				i := r.Intn(len(x.Br))
+				x.Br = append(append([]SBranch{}, x.Br[:i]...), x.Br[i+1:]...)
+			case (x.K == KWith || x.K == KPlus) && r.Intn(2) == 0:
+				// one branch more: a strict superset
+				x.Br = append(append([]SBranch{}, x.Br...), SBranch{L: "zextra", T: &SNode{K: KUnit}})
 			case x.K == KWith && len(x.Br) > 1:
 				x.Br = x.Br[:len(x.Br)-1]
 			case x.K == KWith:
